@@ -18,7 +18,7 @@ Next == /\ l <= Len(Trace) /\ l' = l + 1
                   /\ Ev.intact /\ ~Ev.panic
              [] Ev.op = "limit"   -> LimitOK(Ev.n, Ev.k, Ev.out) /\ ~Ev.panic
              [] Ev.op = "autocut" -> AutocutOK(Ev.n, Ev.cutoff, Ev.out, Ev.idx) /\ ~Ev.panic
-             [] Ev.op = "fuse"    -> Holds(FuseOK(Ev.kind, Ev.wv, Ev.wt, Ev.v, Ev.t, Ev.out, Ev.s, Ev.u)) /\ Ev.intact /\ ~Ev.panic
+             [] Ev.op = "fuse"    -> Holds(FuseOK(Ev.kind, Ev.wv, Ev.wt, Ev.v, Ev.t, Ev.out, Ev.s, Ev.u, Ev.k4)) /\ Ev.intact /\ ~Ev.panic
              [] Ev.op = "merge"   -> MergeOK(Ev.in, Ev.out, Ev.s, Ev.u) /\ ~Ev.panic
 Spec == Init /\ [][Next]_l
 Accepted == LET d == TLCGet("stats").diameter IN PrintT("CONSUMED " \o ToString(d - 1))
